@@ -3,7 +3,7 @@ from ..run import Prop
 from .. import gen, gen_sat, core
 from ..core import rec_fields, unhex, hexs
 from ..gen_sat import (ref_parse, ref_cmp, ref_satisfied, last_binding, cmp_panics, panic_reason, struct_of_text,
-                       dec_struct, dec_assignment, OPS, sat_case)
+                       dec_struct, dec_assignment, OPS, sat_case, has_big_run)
 
 CLS_OP = "c12-nonstandard-operator"          # lossless evaluator reaches an alternative whose operator is none of the five
 CLS_I32 = "c12-debversion-i32-digit-run"     # a comparison of two versions reaches a digit run above i32::MAX
@@ -29,6 +29,26 @@ def _expected_built_text(struct, through_set_version):
         return n + c
     return ", ".join(" | ".join(alt(i, r) for i, r in enumerate(e)) for e in struct)
 
+def wrap_panic_reason(struct, asg, lookup, lossless_text):
+    """Why Relations::wrap_and_sort() followed by satisfied_by panics, if it does.  wrap_and_sort calls
+    name()/version() on EVERY alternative (not only those an evaluation reaches), so an unreadable
+    operator or version anywhere in the field is hit; its sort compares Version values, and the
+    evaluation then runs over the sorted field: with a digit run above i32::MAX among the required
+    or the installed versions a comparison may reach it in either step (the exact step is the
+    model's business: the correspondence compares it).  Reasons as gen_sat.panic_reason."""
+    for e in struct:
+        for (_, ver) in e:
+            if ver is not None:
+                if ver[0] not in OPS:
+                    return "op" if lossless_text else "untyped"
+                if ref_parse(ver[1]) is None:
+                    return "epoch" if lossless_text else "untyped"
+    names = {n for e in struct for (n, _) in e}
+    if any(ver is not None and has_big_run(ver[1]) for e in struct for (_, ver) in e) \
+       or any(k in names and has_big_run(v) for k, v in asg):
+        return "i32"
+    return panic_reason(struct, lookup, lossless_text)
+
 def _triple(rec):
     """'e:u:r' from a record -> (epoch|None, upstream, revision|None)"""
     e, u, r = rec.split(":")
@@ -48,6 +68,8 @@ class C12(Prop):
                   "the transcription of debversion's Ord is proved equal to it whenever no digit run exceeds i32::MAX (beyond that the crate "
                   'panics: recorded finding). Relation::set_version (as modelled by the C11 cone) writes a constraint that version() reads back; '
                   'every field the reader accepts without error and whose accessors do not panic (C10: racc) has the typed view the theorems are about. '
+                  'After Relations::wrap_and_sort (the C13 cone, RelWrap.v): on C13\'s safe domain the returned object is evaluated exactly like the object it was called on, '
+                  'for every tree whose accessors do not panic and for every well-formed field (C12_wrap_invariant, C12_wrap_invariant_any_tree: the accessor content of the C13 cone is the typed view of this cone, the decision table does not depend on the order of entries or alternatives). '
                   'Lookup forms: the field/entry-level evaluators take `impl VersionLookup + Copy`, i.e. a closure; the map and pair forms exist for '
                   'lossy::Relation::satisfied_by only, and the theorems say so. Ordering of the real crate: modelled external, validated by the vercmp stream.')
     level_note = ('Model: Entry/Relations::satisfied_by, Relation::name/version/new/set_version(Some), From<Vec<..>> in debian-control/src/lossless/relations.rs; '
@@ -60,11 +82,13 @@ class C12(Prop):
             "1x1, 1x2, 2x1 (2x2 sampled in quick, exhaustive in thorough) + generated fields with assignments (absent / lower / equal / "
             "equal-written-differently / higher / unrelated / duplicate bindings), epochs, empty entries, the three finding classes and "
             "their neighbourhood (a big digit run that is never compared, or decided before it is reached); the records carry the tree "
-            "dumps of the constructor-built and set_version-built fields (kinds and positions of every token); "
+            "dumps of the constructor-built and set_version-built fields (kinds and positions of every token), and the answers of "
+            "Relations::satisfied_by AFTER Relations::wrap_and_sort() on the parsed field (lw) and on the constructor-built field (cw), judged against the same Debian-semantics expectation; "
             "sat-text: repo literals, exhaustive short strings, whitespace-rich generated fields and their mutations. "
             "non-trivial = a versioned alternative whose package is installed (sat), both versions parse (vercmp)")
     trusted = ["Coq 8.16.1 kernel",
                "hand-written Coq transcription of satisfied_by (both evaluators), Relation::name/version and the three VersionLookup impls; the constructors and set_version/set_archqual are the C11 cone's (RelEdit.v, RelEditTree.v); tied to the code by the sat (answers and tree dumps) and sat-text correspondence streams",
+               "for the lw / cw keys of the sat stream: the model of Relations::wrap_and_sort of the C13 cone (RelWrap.v, variant fixed = the code /repo has; its trusted base is C13's), compared on every sat case",
                "debversion 0.4.4 (FromStr regex, Ord) transcribed in DebVersion.v and validated by the vercmp stream; the dpkg reference ordering is additionally compared with an independent Python transcription of dpkg's verrevcmp",
                "the relations lexer/parser model of C09 (RelLex.v, RelParse.v), the accessor model and grammars of C10 (RelAcc.v, RelGrammar.v, RelGrammarAll.v) for the parsed path",
                "std: Iterator::all/any short-circuit order, PartialOrd provided methods, HashMap insert/get (association list with unique keys)",
@@ -122,11 +146,11 @@ class C12(Prop):
         typable = all(v is None or (v[0] in OPS and ref_parse(v[1]) is not None) for e in struct for (_, v) in e)
         if (r["ty"] == "1") != typable:
             return "harness could not build the typed field" if typable else "harness built a typed field from an unreadable structure"
-        keys = ["ll", "lr", "ly", "rt", "lc", "yc", "ym", "yp", "sv"]
+        keys = ["ll", "lr", "ly", "rt", "lc", "yc", "ym", "yp", "sv", "lw", "cw"]
         for k in keys:
-            # a tree the tolerant reader produced together with errors is not a field: lr is
-            # compared with the model (correspondence) but not judged
-            if r[k] in ("PANIC", "HANG") and not (k == "lr" and r["ne"] != "0"):
+            # a tree the tolerant reader produced together with errors is not a field: lr (and lw,
+            # the same tree after wrap_and_sort) is compared with the model (correspondence) but not judged
+            if r[k] in ("PANIC", "HANG") and not (k in ("lr", "lw") and r["ne"] != "0"):
                 return f"implementation {r[k]} in {k}"
         if "P" in r["le"] and r["ne"] == "0":
             return "implementation PANIC in le"
@@ -137,6 +161,10 @@ class C12(Prop):
         for k in ("lc", "yc", "ym", "sv"):
             if r[k] != want:
                 return f"{k} = {r[k]}, Debian semantics say {want}"
+        # the constructor-built field after Relations::wrap_and_sort(): the same dependencies
+        # (C13), so the same answer (props/C12.v, C12_wrap_invariant_any_tree)
+        if r["cw"] != want:
+            return f"after wrap_and_sort the constructor-built field evaluates to {r['cw']}, Debian semantics say {want} (before: {r['lc']})"
         for k, via in (("lcd", False), ("svd", True)):
             if _dump_text(r[k]) != _expected_built_text(struct, via):
                 return f"{k}: the built field prints as {_dump_text(r[k])!r}, expected {_expected_built_text(struct, via)!r}"
@@ -161,6 +189,8 @@ class C12(Prop):
             else:
                 if r["ll"] != want or r["lr"] != want:
                     return f"lossless reader + evaluator = {r['ll']}/{r['lr']}, expected {want}"
+                if r["lw"] != want:
+                    return f"after wrap_and_sort the parsed field evaluates to {r['lw']}, Debian semantics say {want} (before: {r['lr']})"
                 per = "".join("1" if ref_satisfied([e], look) else "0" for e in struct)
                 if r["le"] != per:
                     return f"per-entry answers {r['le']}, expected {per}"
@@ -229,6 +259,10 @@ class C12(Prop):
                 if r.get(k) != "PANIC" or (k == "lr" and not clean):
                     continue
                 reasons.append(panic_reason(struct, pair if k == "yp" else look, lossless_text=k in ("ll", "lr")))
+            for k in ("lw", "cw"):
+                if r.get(k) != "PANIC" or (k == "lw" and not clean):
+                    continue
+                reasons.append(wrap_panic_reason(struct, asg, look, lossless_text=(k == "lw")))
             if "P" in r.get("le", "") and clean:
                 for e, c in zip(struct, r["le"]):
                     if c == "P":
